@@ -697,10 +697,13 @@ class Interner:
         return self.index[s]
 
 
-def graph_files(sched):
-    """The distinct Sourcefile objects of the items in the scheduler graph, in graph order."""
+def graph_files(sched, kinds=None):
+    """The distinct Sourcefile objects of the items in the scheduler graph, in graph order
+    (kinds: only items of these KINDS that are not ignored = what a file write with that item filter selects)."""
     seen, out = set(), []
     for it in sched.items:
+        if kinds is not None and (KINDS.get(type(it).__name__) not in kinds or it.is_ignored):
+            continue
         src = getattr(it, 'source', None)
         if src is not None and id(src) not in seen:
             seen.add(id(src))
@@ -850,9 +853,10 @@ def seed_records(sched):
     return out
 
 
-def observe_ops_state(sched, paths0):
+def observe_ops_state(sched, paths0, mvi=False):
     """Projected state of the real scheduler (record `obs` of spec/Trace_SchedOps.tla).
-    paths0: {file id: path} of the rendered project (to tell which project files are untouched)."""
+    paths0: {file id: path} of the rendered project (to tell which project files are untouched);
+    mvi: the later file write uses include_module_var_imports (files of module items are written as well)."""
     from loki.batch import FileItem, ProcedureItem, ModuleItem
     cache = sched.item_factory.item_cache
     srckey, srcs = {}, []
@@ -900,7 +904,7 @@ def observe_ops_state(sched, paths0):
         nodes.append({'name': nm, 'kind': kind, 'ignored': bool(it.is_ignored), 'file': key_of(src) if src is not None else '',
                       'role': str(it.role), 'same': cache.get(it.name) is it,
                       'scope': nm.split('#')[0] if '#' in nm else '', 'local': nm.split('#')[-1]})
-    gsrcs = graph_files(sched)
+    gsrcs = graph_files(sched, ('proc', 'mod') if mvi else ('proc',))
     pg = project_of_sources(gsrcs, {id(s): key_of(s) for s in gsrcs})
     paths = [{'key': key_of(s), 'path': str(s.path)} for s in gsrcs]
     used = {os.path.abspath(str(s.path)) for s in gsrcs if s.path is not None}
@@ -913,23 +917,11 @@ EMPTY_OBS = {'seeds': [], 'nodes': [], 'edges': [], 'cache': [], 'PC': {'mods': 
              'paths': [], 'untouched': [], 'raised': ''}
 
 
-def write_and_link(sched, paths0, untouched, workdir, timeout=120):
-    """FileWriteTransformation into workdir/out, then gfortran: written files + untouched project files + a main program
-    that calls the seeds.  Returns 'ok' or a short failure text."""
-    import subprocess
-    from loki.transformations.build_system import FileWriteTransformation
-    out = os.path.join(workdir, 'out')
-    os.makedirs(out, exist_ok=True)
-    sched.build_args['output_dir'] = out
-    try:
-        sched.process(FileWriteTransformation())
-    except Exception as e:  # pylint: disable=broad-except
-        return f'write-raised:{type(e.__cause__ or e).__name__}'
-    written = sorted(os.path.join(out, f) for f in os.listdir(out))
-    others = [paths0[f] for f in untouched]
-    files = written + others
-    # order by module dependencies (text of the emitted files: only to order the compiler's command line)
+def make_link_job(written, others, calls, workdir, tag=''):
+    """A compiler job: `written` files must compile, `others` only provide definitions; a main program calls `calls`
+    = [(module or '', routine)].  Module order from the text of the files (only to order the compiler's command line)."""
     import re
+    files = list(written) + list(others)
     defs, uses = {}, {}
     for f in files:
         with open(f) as fh:
@@ -950,22 +942,44 @@ def write_and_link(sched, paths0, untouched, workdir, timeout=120):
         order.append(f)
     for f in files:
         visit(f)
-    lines = ['program verif_main', '  implicit none', '  integer :: a', '  a = 0']
-    usel = []
+    lines = ['program verif_main'] + [f'  use {m}, only: {r}' for m, r in calls if m] + ['  implicit none', '  integer :: a', '  a = 0']
+    lines += [f'  call {r}(a)' for _, r in calls] + ['  print *, a', 'end program verif_main']
+    main = os.path.join(workdir, f'verif_main{tag}.f90')
+    with open(main, 'w') as fh:
+        fh.write('\n'.join(lines) + '\n')
+    return {'workdir': workdir, 'written': list(written), 'order': order, 'main': main, 'tag': tag}
+
+
+def write_sources(sched, paths0, untouched, workdir, mvi=False):
+    """FileWriteTransformation into workdir/out + a main program that calls the seeds.  Returns a failure text or the
+    compiler job for `link_job` (written files, untouched project files, module order, main program)."""
+    from loki.transformations.build_system import FileWriteTransformation
+    out = os.path.join(workdir, 'out')
+    os.makedirs(out, exist_ok=True)
+    sched.build_args['output_dir'] = out
+    try:
+        sched.process(FileWriteTransformation(include_module_var_imports=mvi))
+    except Exception as e:  # pylint: disable=broad-except
+        return f'write-raised:{type(e.__cause__ or e).__name__}'
+    written = sorted(os.path.join(out, f) for f in os.listdir(out))
+    calls = []
     for s in sched.seeds:
         it = sched[s] if '#' in str(s) else (sched[f'#{s}'] or next((i for i in sched.items if i.local_name == str(s).lower()), None))
         if it is None:
             return f'seed-not-in-graph:{s}'
-        if it.scope_name:
-            usel.append(f'  use {it.scope_name}, only: {it.local_name}')
-        lines.append(f'  call {it.local_name}(a)')
-    lines[1:1] = usel
-    lines += ["  print *, a", 'end program verif_main']
-    main = os.path.join(workdir, 'verif_main.f90')
-    with open(main, 'w') as fh:
-        fh.write('\n'.join(lines) + '\n')
-    bdir = os.path.join(workdir, 'build')
+        calls.append((it.scope_name or '', it.local_name))
+    return make_link_job(written, [paths0[f] for f in untouched], calls, workdir)
+
+
+def link_job(job, timeout=120):
+    """gfortran compile + link of a job of `write_sources` (thread safe: only subprocesses).  'ok' or a failure text."""
+    import subprocess
+    if isinstance(job, str):
+        return job
+    workdir, written, order, main = job['workdir'], job['written'], job['order'], job['main']
+    bdir = os.path.join(workdir, 'build' + job.get('tag', ''))
     os.makedirs(bdir, exist_ok=True)
+
     def gf(args):
         try:
             p = subprocess.run(['gfortran', '-J', bdir] + args, cwd=bdir, stdout=subprocess.PIPE, stderr=subprocess.STDOUT,
@@ -981,25 +995,47 @@ def write_and_link(sched, paths0, untouched, workdir, timeout=120):
     # the untouched project files only provide what the written files still refer to: their objects go into an archive
     # (an untouched file that no longer compiles -- it uses a unit that was renamed -- is simply not available)
     wset = set(written)
-    objs_w, objs_u = [], []
+    worder = [f for f in order if f in wset]
+    uorder = [f for f in order if f not in wset]
+    exe = os.path.join(bdir, 'main.exe')
+    if not uorder:
+        rc, text = gf(['-o', exe] + worder + [main])
+        return 'ok' if rc == 0 else 'gfortran:' + first_error(text)
+    # modules of untouched files may be needed to compile written ones and vice versa: compile in the common order,
+    # untouched files one by one (they may fail), runs of written files together
+    objs_w, objs_u, run_ = [], [], []
+
+    def flush():
+        if not run_:
+            return 0, ''
+        rc_, text_ = gf(['-c'] + run_)
+        objs_w.extend(os.path.join(bdir, os.path.basename(f)[:-len(os.path.splitext(f)[1])] + '.o') for f in run_)
+        run_.clear()
+        return rc_, text_
     for f in order:
-        obj = os.path.join(bdir, f'o{len(objs_w) + len(objs_u)}.o')
-        rc, text = gf(['-c', f, '-o', obj])
         if f in wset:
-            if rc != 0:
-                return 'gfortran:' + first_error(text)
-            objs_w.append(obj)
-        elif rc == 0:
+            run_.append(f)
+            continue
+        rc, text = flush()
+        if rc != 0:
+            return 'gfortran:' + first_error(text)
+        obj = os.path.join(bdir, f'u{len(objs_u)}.o')
+        rc, text = gf(['-c', f, '-o', obj])
+        if rc == 0:
             objs_u.append(obj)
-    mobj = os.path.join(bdir, 'main.o')
-    rc, text = gf(['-c', main, '-o', mobj])
+    run_.append(main)
+    rc, text = flush()
     if rc != 0:
         return 'gfortran:' + first_error(text)
     lib = []
     if objs_u:
         subprocess.run(['ar', 'rcs', os.path.join(bdir, 'libuntouched.a')] + objs_u, cwd=bdir, check=False, timeout=timeout)
         lib = ['-L', bdir, '-luntouched']
-    rc, text = gf(['-o', os.path.join(bdir, 'main.exe'), mobj] + objs_w + lib)
+    rc, text = gf(['-o', exe] + objs_w + lib)
     if rc != 0:
         return 'gfortran:' + first_error(text)
     return 'ok'
+
+
+def write_and_link(sched, paths0, untouched, workdir, timeout=120, mvi=False):
+    return link_job(write_sources(sched, paths0, untouched, workdir, mvi), timeout)
